@@ -22,6 +22,14 @@ CLAIMED = {
   text="Machine-checked proof over all integers/lists: the regular generator (written as the code: first element then repeated +=) yields exactly n timestamps and the k-th equals timestamp+offset+(i+k)*interval (no drift); irregular windows are firstn/skipn or ValueError, never fewer; NoTimestampInformationError / ValueError cases; the direction state machine accepts exactly the non-decreasing or non-increasing sequences. Correspondence on all three families incl. range-limit OverflowError paths, exhaustive short windows and sequences, hostile mutation of the caller's list.",
   design="DESIGN.md §7 C08", tech="Coq proof (induction) over a hand model + in-Coq correspondence",
   note=TB + "hand model of Timing/strategies tied by correspondence; datetime/hightime arithmetic and range limits assumed (given to the model as parameters)."),
+ "C17": dict(
+  text="Machine-checked proof for every list, slice (start/stop/step incl. None, negative, out of range, zero) and replacement length: the class's slice assignment (shrink / grow / replace branches over NumPy slice assignment with its length-1 broadcast, np.delete, np.insert) equals Python list slice assignment and raises ValueError exactly where it does; every other operation (indexing, deletion, insert clamping, append, extend incl. self, +=, pop, remove, clear, index, count) equals the list operation incl. error class, wrong-typed arguments raise TypeError, and a raising call leaves the content unchanged. reverse() is checked by correspondence only (partial). Three-way correspondence: implementation vs Coq model/spec vs REAL Python lists, exhaustive over short arrays.",
+  design="DESIGN.md §7 C17", tech="Coq refinement proof (firstn/skipn/app + lia) of a hand model to a Python-list spec; three-way in-Coq correspondence",
+  note=TB + "hand model of the array classes and CPython's MutableSequence mixins; NumPy primitives modelled; spec itself compared with real lists per run."),
+ "C18": dict(
+  text="Machine-checked proof: the constructor keeps exactly the iterable's items and fixes the value type by the first item (or value_type when empty), mixed/non-scalar items raise TypeError; after ANY operation and hence any history (induction over fold_left) every element is an instance of the unchanged value type; wrong-typed set/insert/append/slice-assign raise TypeError and store nothing. List behaviour is ListSpec itself (the class stores a real list); three-way correspondence with real lists over all iterable kinds (incl. one-shot iterators, self, str), all slice shapes, hostile mutation of the caller's list.",
+  design="DESIGN.md §7 C18", tech="Coq invariant proof by induction over operation histories + three-way in-Coq correspondence",
+  note=TB + "hand model of Vector tied by correspondence; extend/+= with a wrong-typed item: spec accepts nothing-stored or well-typed-prefix-stored."),
  "C20": dict(
   text="Machine-checked proof: timing_init (validation order of the three strategies) accepts exactly the combinations of the mode table and otherwise raises TypeError/ValueError; flags equal presence, absent members raise RuntimeError, mode preserved, empty has no members, equality iff all members equal. Correspondence EXHAUSTIVE over modes x member kinds (three families, zero values, wrong types) x timestamps kinds x constructors, with setattr and hostile-caller probes on every constructed object.",
   design="DESIGN.md §7 C20", tech="Coq proof (case analysis) over a hand model + exhaustive in-Coq correspondence",
